@@ -310,6 +310,18 @@ Theorem c08_end_to_end_records :
 Proof. exact records_end_to_end. Qed.
 Print Assumptions c08_end_to_end_records.
 
+(* line records of a FUNC (value = the whole line record): zero-size lines filtered, `size - 1` cannot trap, the
+   trait's builder never fails; a lookup returns a line of the file with address <= x <= address + (size - 1), no overflow *)
+Theorem c08_end_to_end_lines :
+  forall (V : Type) (eqb : V -> V -> bool), (forall a b, eqb a b = true <-> a = b) ->
+  forall p (lines : list (Z * Z * V)), u64_recs lines ->
+  exists t, g_line_table eqb p lines = Ret t /\
+    StronglySorted (fun a b => snd (fst a) < fst (fst b)) t /\
+    (forall x v, rm_get t x = Some v ->
+       exists b s, In (b, s, v) lines /\ 0 < s /\ b + (s - 1) < two64 /\ b <= x <= b + (s - 1)).
+Proof. exact (@line_table_ok). Qed.
+Print Assumptions c08_end_to_end_lines.
+
 (* ---- non-vacuity: the hypotheses are met by concrete, non-trivial inputs ---- *)
 Example c08_nonvacuous_wf :
   wf_entries [(mk_range 18446744073709551610 6, 1); (mk_range 0 0, 2); (mk_range 5 10, 3);
